@@ -27,7 +27,7 @@ LEVEL_NOTE = ('Trusted: pvmon/gen/programs.py (generator and shadow interpreter)
 ASSUMPTIONS = ['x += y is modelled with Python\'s in-place semantics: every variable bound to the same object sees the extension',
                'an atom present with count 0 and an absent atom denote the same composition',
                'mass fractions are not demanded when the total mass is 0 (0*f or the empty formula): the quotient is undefined',
-               'total counts are kept below 1e13 so that numpy integer counts cannot overflow']
+               'total counts are kept below 1e13 and numpy.int32 counts are not generated, so that numpy integer arithmetic cannot wrap around (numpy behaviour, not the library\'s)']
 
 _s = {}
 
@@ -55,6 +55,14 @@ class StructureInvariantBroken(ContractBroken):
 
 class CountAtomsBroken(ContractBroken):
     pass
+
+
+def _contract_text(exc):
+    """'<condition name>: <values>' from an icontract violation message (its first line is the source location)."""
+    lines = [l.strip() for l in str(exc).split('\n') if l.strip()]
+    if len(lines) > 1 and lines[0].startswith('File '):
+        lines = lines[1:]
+    return ' '.join(lines[:4])[:400]
 
 
 # ---------------------------------------------------------------- helpers shared by contracts and checks
@@ -248,16 +256,21 @@ def setup(ctx):
     reach.watch(formulas._convert_to_hill_notation, '_convert_to_hill_notation')
     reach.watch(core.Ion.mass, 'Ion.mass').watch(F.mass_fraction, 'Formula.mass_fraction')
     reach.watch(F.mass, 'Formula.mass').watch(F.charge, 'Formula.charge')
-    reach.watch_line_matching(F.__rmul__, 'ret.structure = ((other*q, f), )', 'rmul.single-fragment-shortcut')
-    reach.watch_line_matching(F.__rmul__, 'ret.structure = ((other, ret.structure), )', 'rmul.wrap-structure')
-    reach.watch_line_matching(formulas._count_atoms, 'partial = _count_atoms(fragment)', 'count_atoms.nested')
+    lines = []
+    for func, text, label in ((F.__rmul__, 'ret.structure = ((other*q, f), )', 'rmul.single-fragment-shortcut'),
+                              (F.__rmul__, 'ret.structure = ((other, ret.structure), )', 'rmul.wrap-structure'),
+                              (formulas._count_atoms, 'partial = _count_atoms(fragment)', 'count_atoms.nested')):
+        try:
+            reach.watch_line_matching(func, text, label)
+            lines.append(label)
+        except LookupError:
+            ctx.note('source line %r not found in this tree; branch counter %s not available' % (text, label))
     _s['reach'] = reach
     stats = _s['stats'] = Counter()
     attach_contracts(stats)
     reach.start()
-    for name in ('Formula.__add__', 'Formula.__iadd__', 'Formula.__rmul__', '_count_atoms', '_immutable',
-                 '_convert_to_hill_notation', 'Ion.mass', 'Formula.mass_fraction', 'rmul.single-fragment-shortcut',
-                 'rmul.wrap-structure', 'count_atoms.nested'):
+    for name in ['Formula.__add__', 'Formula.__iadd__', 'Formula.__rmul__', '_count_atoms', '_immutable',
+                 '_convert_to_hill_notation', 'Ion.mass', 'Formula.mass_fraction'] + lines:
         if not ctx.replay:
             ctx.require('reach.' + name, 1, 'the workload must enter this anchored mechanism')
     if not ctx.replay:
@@ -363,7 +376,7 @@ def _run(ctx, prog, T, quiet=False):
         except ContractBroken as exc:
             return [{'kind': 'contract', 'step': idx, 'contract': type(exc).__name__,
                      'msg': 'statement %d (%s): contract violated inside the library: %s'
-                            % (idx, st['op'], str(exc).split('\n')[0][:300])}]
+                            % (idx, st['op'], _contract_text(exc))}]
         except Exception as exc:
             return [{'kind': 'exception', 'step': idx, 'exc_type': type(exc).__name__,
                      'msg': 'statement %d (%s) raised %s: %s' % (idx, st['op'], type(exc).__name__, str(exc)[:300])}]
@@ -420,7 +433,7 @@ def _run(ctx, prog, T, quiet=False):
                     ps = _compare(ctx, f, sh.atoms(i), 'after statement %d (%s), v%d' % (idx, st['op'], i))
                 except ContractBroken as exc:
                     ps = ['after statement %d (%s), v%d: contract violated inside the library: %s'
-                          % (idx, st['op'], i, str(exc).split('\n')[0][:300])]
+                          % (idx, st['op'], i, _contract_text(exc))]
                 if ps:
                     problems.append({'kind': 'value', 'step': idx, 'var': i, 'msg': ps[0], 'all': ps[:4]})
                     break
@@ -489,7 +502,7 @@ def check_atom_sweep(ctx, case):
                         or _compare(ctx, g, {k: nf}, '%r*formula(%r)' % (n, a))
                         or _compare(ctx, h, {k: 1 + nf}, 'formula(%r) + %r*formula(%r)' % (a, n, a)))
         except ContractBroken as exc:
-            problems = ['contract violated inside the library: %s' % str(exc).split('\n')[0][:300]]
+            problems = ['contract violated inside the library: %s' % _contract_text(exc)]
         if problems:
             ctx.violation(problems[0], key=list(k), problems=problems[:3])
         ctx.count('sweep.atoms')
